@@ -13,13 +13,13 @@ SetOf(s) == {s[k] : k \in 1..Len(s)}
 RegOf(r) == [n \in Tools |-> IF r.post.unreg[n] THEN NotReg ELSE SetOf(r.post.reg[n])]
 DAct(a) == CASE a.op = "register"   -> C!Register(a.n, SetOf(a.req))
              [] a.op = "metabolize" -> IF a.mode = "nested" THEN C!MetabolizeNested(a.n, a.n2) ELSE C!Metabolize(a.n, a.mode)
-             [] a.op = "tool_call"  -> C!ToolCall(a.n)
+             [] a.op = "tool_call"  -> IF a.mode = "upper" THEN C!ToolCallOtherCase(a.n) ELSE C!ToolCall(a.n)
              [] a.op = "tool_loop"  -> C!ToolLoop(a.n, a.n2)
              [] a.op = "repair"     -> C!Repair
 Match(r) == /\ ~r.obs.raised /\ reg' = RegOf(r) /\ ros' = r.post.ros
             /\ \A n \in Tools : obs'.ran[n] = r.obs.ran[n]
             /\ obs'.ok = r.obs.ok /\ obs'.ok2 = r.obs.ok2
-Req(r) == IF r.act.op \in {"metabolize", "tool_call", "tool_loop"} THEN {r.act.n, r.act.n2} \ {None} ELSE {}
+Req(r) == IF r.act.op \in {"metabolize", "tool_call", "tool_loop"} /\ r.act.mode # "upper" THEN {r.act.n, r.act.n2} \ {None} ELSE {}
 Clauses == {"NoUnauthorisedRun", "RefusalReported", "NoRaise"}
 Holds(c, r) ==
   CASE c = "NoUnauthorisedRun" -> \A n \in Tools : r.obs.ran[n] > 0 => C!CapOK(n)
